@@ -1,7 +1,7 @@
 CONSTANTS
   InitPrios <- P12
   SetPrios = {1, 3, 7}
-  Alphabet <- AlphaPertNoTick
+  Alphabet <- AlphaPertCond
   K = 1
   CapBase = 0
 INIT Init
